@@ -285,13 +285,14 @@ def max2d_hypotheses(S, dt):
                 biot_shelf=0 <= K * dz / lam0 <= 1, biot_wall=0 <= Kw * dr / lam0 <= 1)
 
 
-def flux_2d(S, Ttop):
-    """vapour flux per column as the 2D loops compute it (both stages use the ice correlation); the window test is the model's"""
+def flux_2d(S, Ttop, liquid_stage=True):
+    """vapour flux per column as the 2D loops compute it: liquid correlation while the surface is liquid (cooling stage), ice correlation in the
+    solidification stage -- as the 1D model does; the window test is the model's"""
     import ethz_snow.utils as U
     c = S.const
     if c["configuration"] != "VISF":
         return np.zeros_like(Ttop)
-    p = U.vapour_pressure_solid(Ttop)
+    p = U.vapour_pressure_liquid(Ttop) if liquid_stage else U.vapour_pressure_solid(Ttop)
     return U.vapour_flux(c["kappa"], c["m_water"], c["k_B"], c["p_vac"], p, Ttop, Ttop)
 
 
@@ -365,7 +366,7 @@ def sn2d_case(S, dt, rng, ncool=6, nsolid=6):
     solids = []
     for j in js:
         a, b = ie + 1 + j, ie + 2 + j
-        solids.append("(%s, %s, %s, %s, %s, %s, %s, %s)" % (coq_bool(j > 0), glist(T[a]), glist(W[a]), fhex(sh[b]), fhex(t[b]), flist(flux_2d(S, T[a][-1])), glist(T[b]), glist(W[b])))
+        solids.append("(%s, %s, %s, %s, %s, %s, %s, %s)" % (coq_bool(j > 0), glist(T[a]), glist(W[a]), fhex(sh[b]), fhex(t[b]), flist(flux_2d(S, T[a][-1], False)), glist(T[b]), glist(W[b])))
     ts, td, dHe = (c["t_vac_start"], c["t_vac_duration"], c["Dh_evaporation"]) if visf else (0.0, 0.0, 0.0)
     return "(%s, %d%%nat, %d%%nat, %s, %s, %s, %s, %s, %s, %s)" % (p2d_text(S, dt), Nz, Nr, flist(r), coq_bool(visf), fhex(ts), fhex(td), fhex(dHe), coq_list(cools), coq_list(solids)), \
         dict(i_end=ie, cooling_steps_checked=len(cools), solid_steps_checked=len(solids))
